@@ -121,7 +121,9 @@ void run(Ctx &ctx) {
     if (ctx.worker == 0) { ctx.st.count("Le", Le); ctx.st.count("Lu", Lu); ctx.st.sample("escape ' \\r\\n%' spaceToPlus=1 normalizeBreaks=1"); ctx.st.sample("unescape '%0d%0A%4%g+' plusToSpace=1 URI_BR_TO_CRLF"); }
 }
 void replay(Ctx &ctx, const Str &enc) {
-    std::vector<Str> p = split(enc, '`'); if (p.size() != 5) return; Local lc; int a = atoi(p[2].c_str()), b = atoi(p[3].c_str());
+    std::vector<Str> p = split(enc, '`'); if (p.size() < 5) return;
+    while (p.size() > 5) { p[1] += "`" + p[2]; p.erase(p.begin() + 2); }      // the string itself may hold a back-tick
+    Local lc; int a = atoi(p[2].c_str()), b = atoi(p[3].c_str());
     if (p[4] == "A") { Runner<char> r(&ctx, &lc, 520, 1620); if (p[0] == "E") r.escape_case(p[1], a, b); else r.unescape_case(p[1], a, b); }
     else { Runner<wchar_t> r(&ctx, &lc, 520, 1620); if (p[0] == "E") r.escape_case(p[1], a, b); else r.unescape_case(p[1], a, b); }
 }
